@@ -12,7 +12,8 @@
        the proxy (repair 2), otherwise step 3 answers with the class-level default;
      - class-level only: step 3, same class, same value.
    The proxy object is built by the class's own constructor from the original's args, else without arguments, else
-   (repair 3) by the __new__ of the first base that does not define one in Python.
+   (repair 3) by the __new__ of the first base that does not define one in Python; if nothing works (repair 4) the
+   original exception is re-raised as it is.
    The per-class attribute table and which constructions succeed are measured by the harness.  Definitions only. *)
 From Coq Require Import List String ZArith Bool.
 From GinV Require Import Lib.Out.
@@ -27,8 +28,8 @@ Inductive akind :=
 | AClass.                        (* class-level only *)
 Definition attr := (string * akind)%type.
 
-Record repairs : Type := { r_slots : bool; r_dict : bool; r_new : bool }.
-Definition current : repairs := {| r_slots := true; r_dict := true; r_new := true |}.
+Record repairs : Type := { r_slots : bool; r_dict : bool; r_new : bool; r_fallback : bool }.
+Definition current : repairs := {| r_slots := true; r_dict := true; r_new := true; r_fallback := true |}.
 
 Definition reads_same (r : repairs) (a : attr) : bool :=
   match snd a with
@@ -38,13 +39,30 @@ Definition reads_same (r : repairs) (a : attr) : bool :=
   | AClass => true
   end.
 
-(* can the proxy object be built at all *)
-Definition constructed (r : repairs) (from_args from_nothing : bool) : bool := from_args || from_nothing || r_new r.
+(* can the proxy object be built at all: the proxy CLASS must be creatable (the original's __init_subclass__ / metaclass
+   may refuse), and then some construction must succeed.  The attempts are made in order and only a TypeError leads to
+   the next one: from the args, from nothing, then (repair 3) the first non-Python __new__ of the MRO called without
+   arguments (from_base: exception groups' __new__ refuses that). *)
+Inductive attempt := AOk | ATypeError | AOtherError.
+Definition constructed (r : repairs) (subclassable : bool) (from_args from_nothing : attempt) (from_base : bool) : bool :=
+  subclassable &&
+  match from_args with
+  | AOk => true
+  | AOtherError => false
+  | ATypeError => match from_nothing with
+                  | AOk => true
+                  | AOtherError => false
+                  | ATypeError => r_new r && from_base
+                  end
+  end.
 
-Definition run_gen (r : repairs) (p : bool * (bool * bool) * list attr) : out :=
-  let '(is_exception, (from_args, from_nothing), attrs) := p in
+(* repair 4: when no stand-in can be built the ORIGINAL is re-raised unchanged (its message is then not extended):
+   better than replacing it by the TypeError / ValueError of the failed construction *)
+Definition run_gen (r : repairs) (p : bool * (bool * attempt * attempt * bool) * list attr) : out :=
+  let '(is_exception, (subclassable, from_args, from_nothing, from_base), attrs) := p in
   if negb is_exception then OT "PassThrough" []
-  else if negb (constructed r from_args from_nothing) then OT "ClassLost" [OS "TypeError"]
+  else if negb (constructed r subclassable from_args from_nothing from_base) then
+         if r_fallback r then OT "Original" [] else OT "ClassLost" []
   else OT "Proxy" [OL (map (fun a => OL [OS (fst a); OB (reads_same r a)]) attrs)].
 
 Definition run := run_gen current.
